@@ -30,8 +30,10 @@ theorem attempt_monotone_bounded (s : State) (sid : Nat) (c : List Nat) (height 
     · simp [h1]
     · by_cases h2 : s.threshold > (available s).length
       · simp [h1, h2]
-      · simp only [h1, h2, if_false]
-        refine ⟨fun h => absurd rfl h, fun _ => ⟨sg, rfl, by omega, by simp, ⟨{ expiredHeight := height + s.signingPeriod, assigned := (dequeueAll s.queues c).1 }, by simp, rfl⟩, rfl, fun i hi => by simp [hi]⟩⟩
+      · by_cases h3 : headBad s c = true
+        · simp [h1, h2, h3]
+        · simp only [h1, h2, h3, if_false]
+          refine ⟨fun h => absurd rfl h, fun _ => ⟨sg, rfl, by omega, by simp, ⟨{ expiredHeight := height + s.signingPeriod, assigned := (dequeueAll s.queues c).1 }, by simp, rfl⟩, rfl, fun i hi => by simp [hi]⟩⟩
 
 /-- a signature submission never changes any signing's status or attempt -/
 theorem submit_keeps_status (s : State) (sid member : Nat) (a b : Bool) :
